@@ -32,7 +32,7 @@ structure NodeLegal (S : Schemas) (v : Nat) (n : Node) : Prop where
   legal : ∃ sigs s, lookupOp S n.op = some sigs ∧ InForce sigs v s ∧ s.deprecated = false ∧
       s.minIn ≤ n.ins.length ∧ n.ins.length ≤ s.maxIn ∧
       s.minOut ≤ n.outsRaw.length ∧ n.outsRaw.length ≤ s.maxOut ∧
-      ∀ a ∈ n.attrs, a ∈ s.attrs
+      ∀ a ∈ n.attrs, attrName a ∈ s.attrs
 
 structure NodeHonours (S : Schemas) (v : Nat) (imports : List String) (funcs : List Func)
     (n : Node) : Prop where
@@ -225,6 +225,60 @@ theorem function_imports_complete (S : Schemas) (m : Model) (h : opsetLegal S m 
   obtain ⟨fv, h1, h2, h3⟩ := hf f hfm
   exact ⟨⟨fv, h1, h2⟩, fun p g hg n hn => (h3 p g hg n hn).domain_imported⟩
 
+/-! ### nested functions: a function called from a function body, to any call depth -/
+
+/-- some node at some depth of `g` calls `(d, nm)` (a non-default domain) -/
+def CalledFrom (g : Graph) (d nm : String) : Prop :=
+  ∃ p g', g.at? p = some g' ∧ ∃ n ∈ g'.nodes, n.domain = d ∧ n.op = nm ∧ d ≠ ""
+
+/-- `(d, nm)` is reached from the main graph through a chain of calls of any length: called from the main
+    graph (any depth), or called from the body (any depth) of a DEFINITION of a reached name. -/
+inductive Reached (m : Model) : String → String → Prop where
+  | main {d nm : String} : CalledFrom m.graph d nm → Reached m d nm
+  | nested {d nm d' nm' : String} (f : Func) : Reached m d nm → f ∈ m.funcs → f.domain = d → f.name = nm →
+      CalledFrom f.asGraph d' nm' → Reached m d' nm'
+
+/-- what an accepted model guarantees about a function definition -/
+structure FuncHonours (S : Schemas) (v : Nat) (m : Model) (f : Func) : Prop where
+  defined : f ∈ m.funcs
+  honours : ∃ fv, importVersion "" f.imports = some fv ∧ fv ≤ v ∧
+    ScopeHonours S fv (domainsOf f.imports) m.funcs f.asGraph
+
+/-- **Nested function calls resolve and honour the opset, to any call depth.** In an accepted model every
+    name reached from the main graph through a call chain of any length (function called from a function
+    body called from …, each call at any nesting depth of Loop/If/Scan bodies) has a definition in the
+    model; that definition declares a default opset not newer than the model's, its body honours that
+    opset with its OWN import list, and the CALLER's import list (the model's for a call from the main
+    graph, the calling function's own otherwise) contains the callee's domain. -/
+theorem nested_functions_honour (S : Schemas) (m : Model) (h : opsetLegal S m = true) :
+    ∃ v, importVersion "" m.imports = some v ∧
+      ∀ d nm, Reached m d nm → ∃ f, f.domain = d ∧ f.name = nm ∧ FuncHonours S v m f := by
+  obtain ⟨v, hv, hmain, hf⟩ := (opsetLegal_sound S m h).honoured
+  refine ⟨v, hv, ?_⟩
+  intro d nm hr
+  cases hr with
+  | main hc =>
+    obtain ⟨p, g', hg, n, hn, hd, ho, hne⟩ := hc
+    obtain ⟨f, hfm, hfd, hfn⟩ := (hmain p g' hg n hn).other_is_call (by rw [hd]; exact hne)
+    exact ⟨f, by rw [hfd, hd], by rw [hfn, ho], hfm, hf f hfm⟩
+  | nested c _ hcm _ _ hc =>
+    obtain ⟨p, g', hg, n, hn, hd, ho, hne⟩ := hc
+    obtain ⟨_, _, _, hcs⟩ := hf c hcm
+    obtain ⟨f, hfm, hfd, hfn⟩ := (hcs p g' hg n hn).other_is_call (by rw [hd]; exact hne)
+    exact ⟨f, by rw [hfd, hd], by rw [hfn, ho], hfm, hf f hfm⟩
+
+/-- the caller side of a nested call: the calling function imports the callee's domain -/
+theorem nested_call_domain_imported (S : Schemas) (m : Model) (h : opsetLegal S m = true) :
+    ∀ c ∈ m.funcs, ∀ d nm, CalledFrom c.asGraph d nm →
+      d ∈ domainsOf c.imports ∧ ∃ f ∈ m.funcs, f.domain = d ∧ f.name = nm := by
+  obtain ⟨v, hv, _, hf⟩ := (opsetLegal_sound S m h).honoured
+  intro c hc d nm hcall
+  obtain ⟨p, g', hg, n, hn, hd, ho, hne⟩ := hcall
+  obtain ⟨_, _, _, hcs⟩ := hf c hc
+  have hh := hcs p g' hg n hn
+  obtain ⟨f, hfm, hfd, hfn⟩ := hh.other_is_call (by rw [hd]; exact hne)
+  exact ⟨hd ▸ hh.domain_imported, f, hfm, by rw [hfd, hd], by rw [hfn, ho]⟩
+
 /-! ### element types against the type constraints -/
 
 /-- The declared element types of the inputs of a default-domain node satisfy the type constraints of
@@ -236,7 +290,18 @@ structure NodeTyped (S : Schemas) (v : Nat) (vis : List (String × Annot)) (n : 
         allowedAt s k = [] ∨ d ∈ allowedAt s k) ∧
     (∀ k₁ k₂ x₁ x₂ d₁ d₂, n.ins[k₁]? = some x₁ → n.ins[k₂]? = some x₂ → x₁ ≠ "" → x₂ ≠ "" →
         dtypeOf vis x₁ = some d₁ → dtypeOf vis x₂ = some d₂ →
-        varAt s k₁ ≠ 0 → varAt s k₁ = varAt s k₂ → d₁ = d₂)
+        varAt s k₁ ≠ 0 → varAt s k₁ = varAt s k₂ → d₁ = d₂) ∧
+    -- each annotated output has an admitted element type
+    (∀ k y d, n.outsRaw[k]? = some y → y ≠ "" → dtypeOf vis y = some d →
+        allowedOutAt s k = [] ∨ d ∈ allowedOutAt s k) ∧
+    -- an annotated output and an annotated input bound to one type variable have one element type
+    (∀ k j y x d e, n.outsRaw[k]? = some y → n.ins[j]? = some x → y ≠ "" → x ≠ "" →
+        dtypeOf vis y = some d → dtypeOf vis x = some e →
+        varOutAt s k ≠ 0 → varOutAt s k = varAt s j → e = d) ∧
+    -- an attribute whose type the model records has the type onnx.defs declares for that name
+    (∀ a ∈ n.attrs, ∀ k t, attrKind a = some k → lookupTy (attrName a) s.attrTy = some t → k = t) ∧
+    -- every attribute onnx.defs marks `required` is present
+    (∀ r ∈ s.required, ∃ a ∈ n.attrs, attrName a = r)
 
 structure TypesHonoured (S : Schemas) (m : Model) : Prop where
   honoured : ∃ v, importVersion "" m.imports = some v ∧
@@ -292,8 +357,8 @@ theorem nodeTypedB_sound (S : Schemas) (v : Nat) (vis : List (String × Annot)) 
   intro hd sigs s hl hs
   have hdom : (n.domain != "") = false := by simp [hd]
   simp only [nodeTypedB, hdom, Bool.false_eq_true, if_false, hl, hs, sigTyped, Bool.and_eq_true] at h
-  obtain ⟨h1, h2⟩ := h
-  refine ⟨?_, ?_⟩
+  obtain ⟨⟨⟨⟨⟨h1, h2⟩, h3⟩, h4⟩, h5⟩, h6⟩ := h
+  refine ⟨?_, ?_, ?_, ?_, ?_, ?_⟩
   · intro k x d hk hne hdt
     have hm := inputFacts_mem s vis n.ins 0 k x d hk hne hdt
     rw [Nat.zero_add] at hm
@@ -307,6 +372,32 @@ theorem nodeTypedB_sound (S : Schemas) (v : Nat) (vis : List (String × Annot)) 
     have m₂ := inputFacts_mem s vis n.ins 0 k₂ x₂ d₂ hk₂ hn₂ hd₂
     rw [Nat.zero_add] at m₁ m₂
     exact pairsOK_sound s _ h2 _ m₁ _ m₂ hv he
+  · intro k y d hk hne hdt
+    have hm := inputFacts_mem s vis n.outsRaw 0 k y d hk hne hdt
+    rw [Nat.zero_add] at hm
+    have := (List.all_eq_true.mp h3) _ hm
+    simp only [outFactOK, Bool.or_eq_true, List.isEmpty_iff] at this
+    rcases this with h | h
+    · exact Or.inl h
+    · exact Or.inr (List.contains_iff_mem.mp h)
+  · intro k j y x d e hk hj hny hnx hdy hdx hv he
+    have mo := inputFacts_mem s vis n.outsRaw 0 k y d hk hny hdy
+    have mi := inputFacts_mem s vis n.ins 0 j x e hj hnx hdx
+    rw [Nat.zero_add] at mo mi
+    have := (List.all_eq_true.mp ((List.all_eq_true.mp h4) _ mo)) _ mi
+    simp only [linkOK, Bool.or_eq_true, beq_iff_eq, bne_iff_ne, ne_eq] at this
+    rcases this with (h0 | hne) | heq
+    · exact absurd h0 hv
+    · exact absurd he hne
+    · exact heq
+  · intro a ha k t hk ht
+    have := (List.all_eq_true.mp h5) a ha
+    simp only [attrTypedOK, hk, ht, beq_iff_eq] at this
+    exact this
+  · intro r hr
+    have := (List.all_eq_true.mp h6) r hr
+    obtain ⟨a, ha, hae⟩ := List.any_eq_true.mp this
+    exact ⟨a, ha, by simpa using hae⟩
 
 /-- **Soundness of the element-type check**, every scope at every depth (annotations visible in a
     scope: its own, then those of the enclosing scopes), function bodies included. -/
@@ -331,10 +422,10 @@ theorem typesLegal_sound (S : Schemas) (m : Model) (h : typesLegal S m = true) :
 /-! ### non-vacuity (a hand-written two-operator table) -/
 
 def exS : Schemas :=
-  [("ReduceMean", [⟨1, 1, 1, 1, 1, false, ["axes", "keepdims"], [], [], false⟩, ⟨13, 1, 1, 1, 1, false, ["axes", "keepdims"], [], [], false⟩,
-                   ⟨18, 1, 2, 1, 1, false, ["keepdims", "noop_with_empty_axes"], [], [], false⟩]),
-   ("Swish", [⟨24, 1, 1, 1, 1, false, ["alpha"], [], [], false⟩]),
-   ("Loop", [⟨21, 2, 1000, 1, 1000, false, ["body"], [], [], false⟩])]
+  [("ReduceMean", [⟨1, 1, 1, 1, 1, false, ["axes", "keepdims"], [], [], false, [], [], [], [], false⟩, ⟨13, 1, 1, 1, 1, false, ["axes", "keepdims"], [], [], false, [], [], [], [], false⟩,
+                   ⟨18, 1, 2, 1, 1, false, ["keepdims", "noop_with_empty_axes"], [], [], false, [], [], [], [], false⟩]),
+   ("Swish", [⟨24, 1, 1, 1, 1, false, ["alpha"], [], [], false, [], [], [], [], false⟩]),
+   ("Loop", [⟨21, 2, 1000, 1, 1000, false, ["body"], [], [], false, [], [], [], [], false⟩])]
 
 def exM (v : Nat) (nodes : List Node) : Model :=
   { imports := [("", v)], graph := .mk ["x", "ax"] [] nodes ["y"] [], funcs := [] }
@@ -352,14 +443,14 @@ example : opsetLegal exS (exM 23 [.mk "" "Loop" ["x", "ax"] ["y"] ["body"]
     [.mk [] [] [.mk "" "Swish" ["x"] ["z"] [] []] ["z"] []]]) = false := by decide
 example : opsetLegal exS (exM 24 [.mk "" "Loop" ["x", "ax"] ["y"] ["body"]
     [.mk [] [] [.mk "" "Swish" ["x"] ["z"] [] []] ["z"] []]]) = true := by decide
-example : sigAt [⟨1, 1, 1, 1, 1, false, [], [], [], false⟩, ⟨18, 1, 2, 1, 1, false, [], [], [], false⟩, ⟨13, 1, 1, 1, 1, false, [], [], [], false⟩] 17
-    = some ⟨13, 1, 1, 1, 1, false, [], [], [], false⟩ := by decide
+example : sigAt [⟨1, 1, 1, 1, 1, false, [], [], [], false, [], [], [], [], false⟩, ⟨18, 1, 2, 1, 1, false, [], [], [], false, [], [], [], [], false⟩, ⟨13, 1, 1, 1, 1, false, [], [], [], false, [], [], [], [], false⟩] 17
+    = some ⟨13, 1, 1, 1, 1, false, [], [], [], false, [], [], [], [], false⟩ := by decide
 
 
 def exT : Schemas :=
-  [("Range", [⟨11, 3, 3, 1, 1, false, [], [[1, 11, 5, 6, 7], [1, 11, 5, 6, 7], [1, 11, 5, 6, 7]], [1, 1, 1], false⟩,
-              ⟨27, 3, 3, 1, 1, false, [], [[1, 11, 5, 6, 7, 10, 16], [1, 11, 5, 6, 7, 10, 16], [1, 11, 5, 6, 7, 10, 16]], [1, 1, 1], false⟩]),
-   ("Add", [⟨14, 2, 2, 1, 1, false, [], [[1, 11, 6, 7, 10, 16], [1, 11, 6, 7, 10, 16]], [1, 1], false⟩])]
+  [("Range", [⟨11, 3, 3, 1, 1, false, [], [[1, 11, 5, 6, 7], [1, 11, 5, 6, 7], [1, 11, 5, 6, 7]], [1, 1, 1], false, [], [], [], [], false⟩,
+              ⟨27, 3, 3, 1, 1, false, [], [[1, 11, 5, 6, 7, 10, 16], [1, 11, 5, 6, 7, 10, 16], [1, 11, 5, 6, 7, 10, 16]], [1, 1, 1], false, [], [], [], [], false⟩]),
+   ("Add", [⟨14, 2, 2, 1, 1, false, [], [[1, 11, 6, 7, 10, 16], [1, 11, 6, 7, 10, 16]], [1, 1], false, [], [], [], [], false⟩])]
 
 def exTM (v : Nat) (nodes : List Node) (vi : List (String × Annot)) : Model :=
   { imports := [("", v)], graph := .mk ["a", "b", "c"] [] nodes ["y"] vi, funcs := [] }
@@ -377,5 +468,70 @@ example : typesLegal exT (exTM 23 [.mk "" "Loop" ["c"] ["y"] ["body"]
     [("a", ⟨some 6, none⟩)]) = false := by decide
 example : TypesHonoured exT (exTM 23 [.mk "" "Add" ["a", "b"] ["y"] [] []]
     [("a", ⟨some 6, none⟩), ("b", ⟨some 6, none⟩)]) := typesLegal_sound _ _ (by decide)
+
+/-! nested functions: `outer` calls `inner` from inside a Loop body; `inner` uses Swish (since 24) -/
+def exInner (fv : Nat) : Func :=
+  { domain := "custom.inner", name := "inner", inputs := ["a"], outputs := ["b"], inits := [],
+    imports := [("", fv)], nodes := [.mk "" "Swish" ["a"] ["b"] [] []], vinfo := [] }
+def exOuter (imps : List (String × Nat)) : Func :=
+  { domain := "custom.outer", name := "outer", inputs := ["a"], outputs := ["b"], inits := [],
+    imports := imps,
+    nodes := [.mk "" "Loop" ["a", "a"] ["b"] ["body"]
+      [.mk ["i"] [] [.mk "custom.inner" "inner" ["i"] ["z"] [] []] ["z"] []]], vinfo := [] }
+def exNested (v fv : Nat) (imps : List (String × Nat)) : Model :=
+  { imports := [("", v), ("custom.outer", 1), ("custom.inner", 1)],
+    graph := .mk ["x"] [] [.mk "custom.outer" "outer" ["x"] ["y"] [] []] ["y"] [],
+    funcs := [exOuter imps, exInner fv] }
+
+example : opsetLegal exS (exNested 24 24 [("", 24), ("custom.inner", 1)]) = true := by decide
+-- the nested function is reached through a call chain of length two
+example : Reached (exNested 24 24 [("", 24), ("custom.inner", 1)]) "custom.inner" "inner" :=
+  .nested (exOuter [("", 24), ("custom.inner", 1)])
+    (.main ⟨[], _, rfl, _, List.mem_cons_self, rfl, rfl, by decide⟩) List.mem_cons_self rfl rfl
+    ⟨[(0, 0)], _, rfl, _, List.mem_cons_self, rfl, rfl, by decide⟩
+example : ∃ f, f.domain = "custom.inner" ∧ f.name = "inner" ∧
+    FuncHonours exS 24 (exNested 24 24 [("", 24), ("custom.inner", 1)]) f := by
+  obtain ⟨v, hv, h⟩ := nested_functions_honour exS (exNested 24 24 [("", 24), ("custom.inner", 1)]) (by decide)
+  have : v = 24 := by simpa [exNested, importVersion] using hv.symm
+  subst this
+  exact h _ _ (.nested (exOuter [("", 24), ("custom.inner", 1)])
+    (.main ⟨[], _, rfl, _, List.mem_cons_self, rfl, rfl, by decide⟩) List.mem_cons_self rfl rfl
+    ⟨[(0, 0)], _, rfl, _, List.mem_cons_self, rfl, rfl, by decide⟩)
+-- the nested function's body is too new for ITS declared opset / the caller forgets the callee's domain
+example : opsetLegal exS (exNested 24 23 [("", 24), ("custom.inner", 1)]) = false := by decide
+example : opsetLegal exS (exNested 24 24 [("", 24)]) = false := by decide
+-- a nested function may not declare a newer opset than the model
+example : opsetLegal exS (exNested 23 24 [("", 23), ("custom.inner", 1)]) = false := by decide
+
+/-! attribute types, required attributes, output element types -/
+def exA : Schemas :=
+  [("Cast", [⟨21, 1, 1, 1, 1, false, ["saturate", "to"], [[1, 6, 7, 10]], [1], false,
+              [("saturate", 2), ("to", 2)], ["to"], [[1, 6, 7, 10]], [2], false⟩]),
+   ("Relu", [⟨14, 1, 1, 1, 1, false, [], [[1, 6, 10]], [1], false, [], [], [[1, 6, 10]], [1], false⟩]),
+   ("ReduceSum", [⟨13, 1, 2, 1, 1, false, ["keepdims", "noop_with_empty_axes"], [[1, 6, 10], [7]], [1, 0], false,
+              [("keepdims", 2), ("noop_with_empty_axes", 2)], [], [[1, 6, 10]], [1], false⟩])]
+
+example : attrName "to:2" = "to" ∧ attrKind "to:2" = some 2 ∧ attrName "to" = "to" ∧ attrKind "to" = none
+    ∧ attrKind "axes:7" = some 7 ∧ attrKind "value:11" = some 11 := by decide
+-- a typed attribute name is still checked by the arity / name checker
+example : opsetLegal exA (exTM 23 [.mk "" "Cast" ["a"] ["y"] ["to:2"] []] []) = true := by decide
+example : opsetLegal exA (exTM 23 [.mk "" "Cast" ["a"] ["y"] ["too:2"] []] []) = false := by decide
+-- Cast without its required `to`; with `to` given as a FLOAT attribute; correct
+example : typesLegal exA (exTM 23 [.mk "" "Cast" ["a"] ["y"] ["saturate:2"] []] []) = false := by decide
+example : typesLegal exA (exTM 23 [.mk "" "Cast" ["a"] ["y"] ["to:1"] []] []) = false := by decide
+example : typesLegal exA (exTM 23 [.mk "" "Cast" ["a"] ["y"] ["to:2"] []] []) = true := by decide
+-- Relu declared float16 → float (one type variable, two element types), also in a loop body
+example : typesLegal exA (exTM 23 [.mk "" "Relu" ["a"] ["y"] [] []]
+    [("a", ⟨some 10, none⟩), ("y", ⟨some 1, none⟩)]) = false := by decide
+example : typesLegal exA (exTM 23 [.mk "" "Loop" ["c"] ["y"] ["body"]
+    [.mk ["i"] [] [.mk "" "Relu" ["a"] ["z"] [] []] ["z"] [("z", ⟨some 1, none⟩)]]]
+    [("a", ⟨some 10, none⟩)]) = false := by decide
+-- an output element type the signature does not admit (bfloat16 = 16)
+example : typesLegal exA (exTM 23 [.mk "" "Cast" ["a"] ["y"] ["to:2"] []]
+    [("a", ⟨some 1, none⟩), ("y", ⟨some 16, none⟩)]) = false := by decide
+-- ReduceSum with `axes` still an attribute-typed INTS where the schema wants an input: name check
+example : opsetLegal exA (exTM 23 [.mk "" "ReduceSum" ["a"] ["y"] ["axes:7"] []] []) = false := by decide
+example : TypesHonoured exA (exTM 23 [.mk "" "Cast" ["a"] ["y"] ["to:2"] []]
+    [("a", ⟨some 1, none⟩), ("y", ⟨some 6, none⟩)]) := typesLegal_sound _ _ (by decide)
 
 end J2O.C11
